@@ -83,6 +83,9 @@ def gen(rng, tier):
                     x.mode = y.mode = mode
                     z = zero(rng.randint(0, 1), prec=rng.choice([0, 3]), mode=mode)
                     yield dict(family="zero-inf-alias-exhaustive", vars=[z, x, y], ops=["%s %s" % (op, shape)])
+    # finite sums whose exact result under/overflows: the resulting zero/infinity carries the sign of the exact result
+    for c in C01.range_edge_cases(rng, 150 * reps):
+        yield c
     # x + x, x - x with the same variable twice
     for _ in range(100 * reps):
         x = cls_values(rng, rng.randint(0, 5), ADD_GROUPS[0])
@@ -105,10 +108,10 @@ def cls(v):
 
 def judge(cases, g, m):
     """independent IEEE table on the implementation's observations"""
-    fails = []
+    fails = C01.judge([c for c in cases if c.get("family") == "range-edge"], g, m)
     JUDGE_STATS["table_entries"] = 0
     for c in cases:
-        if "vars" not in c:
+        if "vars" not in c or c.get("family") == "range-edge":
             continue
         prev = [C01.dv_obs(v) for v in c["vars"]]
         for i, o in enumerate(c["ops"]):
